@@ -760,7 +760,7 @@ def _eval_int(text, params):
     t = text.strip()
     t = re.sub(r"CAST\((.*?) AS [A-Z]+\)", r"(\1)", t)
     t = re.sub(r"::[A-Z]+", "", t)
-    toks = re.findall(r":\w+|\d+|[()+-]", t)
+    toks = re.findall(r':"[^"]+"|:\w+|\d+|[()+-]', t)
     if "".join(toks) != re.sub(r"\s+", "", t):
         raise HarnessError(f"clause interpreter cannot parse {text!r}")
     total, sign, stack = 0, 1, []
@@ -776,7 +776,7 @@ def _eval_int(text, params):
             ptotal, psign = stack.pop()
             total = ptotal + psign * total
         else:
-            val = params[tk[1:]] if tk.startswith(":") else int(tk)
+            val = params[tk[1:].strip('"')] if tk.startswith(":") else int(tk)
             total += sign * val
             sign = 1
     return total
